@@ -36,8 +36,8 @@ var tailPool = []string{"x", "-1", "z", "\u00e9", "\u042f", "\u212a", "\u023a", 
 var segPool = []string{"a", "b", "msg", "level", "k8s_pod", "k8s_namespace", "x.y", "имя", "ts", "items", "n", "pod", "service", "log"}
 
 type vocab struct {
-	paths   [][]string
-	strs    []string
+	paths  [][]string
+	strs   []string
 	tsBase []time.Time // thresholds used by ts rules of this batch
 	nums   []string
 
@@ -288,7 +288,7 @@ func genLeaf(rng *rand.Rand, voc *vocab, allowNow bool) *rule {
 		switch {
 		case allowNow && y == 0:
 			r.value = "now"
-			r.intv = pick(rng, []string{"", "", "5s", "1m", "1h", "36h"})
+			r.intv = pick(rng, []string{"", "5s", "1h", "72h", "240h", "240h"})
 			r.shift = pick(rng, []string{"", "-48h", "72h", "-1000h", "240h30m"})
 		case allowNow && y == 1:
 			r.value = "file_d_start"
@@ -566,8 +566,17 @@ func targetValue(rng *rand.Rand, voc *vocab, l *rule, now time.Time) *val {
 			t = thr.Add(time.Duration(rng.Intn(3)-1) * time.Nanosecond)
 		case x == 2 && !volatile:
 			t = thr.Add(time.Duration(rng.Intn(3)-1) * time.Second)
+		case x == 3 && !volatile:
+			// anywhere within 1.5 s: sub-second digits decide
+			t = thr.Add(time.Duration(rng.Int63n(3_000_000_000) - 1_500_000_000))
 		default:
+			// never closer than a day to a wall-clock based threshold; half of
+			// the time within a few days of it (so that a wrong update_interval /
+			// value_shift term of hours or days flips the decision)
 			d := 24*time.Hour + time.Duration(rng.Int63n(int64(5000*time.Hour)))
+			if rng.Intn(2) == 0 {
+				d = 24*time.Hour + time.Duration(rng.Int63n(int64(96*time.Hour)))
+			}
 			if rng.Intn(2) == 0 {
 				d = -d
 			}
